@@ -75,6 +75,24 @@ def main():
                     bad += 1
                     if bad <= 8:
                         print(f"  FAIL {kind}: {label}: at {p}, then at {q}, then at {p} again: got {got}, a fresh copy gives {want}")
+    # the same derivative object queried at p, something else evaluated at q, the object at p again
+    for kind in kinds:
+        for p, q in itertools.permutations(points[:3], 2):
+            for mk in (lambda e: sm.Partial(e, "x"), lambda e: sm.Partial(e, "x", compute_early=True),
+                       lambda e: sm.Differential(e), lambda e: sm.Differential(e, compute_early=True)):
+                e, shared = make(kind)
+                obj = mk(e)
+                ask = (lambda o, pt: o.at(sm.Point(**pt))) if isinstance(obj, sm.Partial) else (lambda o, pt: o.component_at("x", sm.Point(**pt)))
+                outcome(lambda: ask(obj, p))
+                outcome(lambda: e.at(sm.Point(**q)))
+                outcome(lambda: shared.at(sm.Point(**q)))
+                got = outcome(lambda: ask(obj, p))
+                fe, _ = make(kind)
+                want = outcome(lambda: ask(mk(fe), p))
+                if got != want:
+                    bad += 1
+                    if bad <= 8:
+                        print(f"  FAIL {kind}: {type(obj).__name__} asked at {p}, the expression evaluated at {q}, asked at {p} again: got {got}, fresh gives {want}")
     # building a larger expression on top of a node must not disturb the node
     from smoothmath.expression import Variable, Minus, Divide, Power, Add, Multiply, NthPower, Negation
     for outer in (Minus, Divide, Power, Add, Multiply):
